@@ -81,6 +81,7 @@ func (d *restDriver) jobHOTPGen(c *ctx, tag string, probe bool) job {
 	if c.rng.Intn(3) != 0 {
 		q.Algorithm = rfStr(algSpellings[c.rng.Intn(len(algSpellings))])
 	}
+	c.foreignTimeFields(&q)
 	return job{scn: tag, method: "POST", path: "/hotp/generate", cls: "typed", probe: probe, q: q, fill: func(ev *restEvent) {
 		if k, ok := trimKey(sec); ok {
 			ev.Orc = allAlgWindow(k, ctr, 0)
@@ -127,11 +128,25 @@ func (d *restDriver) jobHOTPVal(c *ctx, tag string, probe bool) job {
 		code = "000000"
 	}
 	q.Code = rfStr(code)
+	c.foreignTimeFields(&q)
 	return job{scn: tag, method: "POST", path: "/hotp/validate", cls: "typed", probe: probe, q: q, fill: func(ev *restEvent) {
 		if k, ok := trimKey(sec); ok && skew <= 10 {
 			ev.Orc = allAlgWindow(k, ctr, int(skew)+margin)
 		}
 	}}
+}
+
+// foreignTimeFields adds, to a third of the counter-based requests, the fields of the time-based family (a timestamp
+// and a period in their usual ranges): an endpoint answers from its own fields only, and its sibling endpoints agree
+// (a counter derived from timestamp and period when the counter is absent or 0 would show here).
+func (c *ctx) foreignTimeFields(q *RReq) {
+	if c.rng.Intn(3) != 0 {
+		return
+	}
+	q.Timestamp = rfNum(uint64(1+c.rng.Intn(30)) + uint64(c.rng.Int63n(1<<31))*uint64(c.rng.Intn(2)))
+	if c.rng.Intn(2) == 0 {
+		q.Period = rfNum([]uint64{1, 30, 60, 3600}[c.rng.Intn(4)])
+	}
 }
 
 func validUTF8(s string) bool {
